@@ -592,3 +592,28 @@ FAULTS = [
 BENIGN = [
     ("tie test flipped", [(STV, "            if len(lowest_fpv_cands) > 1:\n                tiebroken_ranking = tiebreak_set(", "            if 1 < len(lowest_fpv_cands):\n                tiebroken_ranking = tiebreak_set(")]),
 ]
+
+# the selector re-arranged as "test first, append only what fits" (as three independent clean-ups did): same iteration table
+_SEL_REGION = ("    while num_elected < m:\n", "    return (tuple(elected), ranking[i:], tiebreak_ranking)")
+_SEL_TEST_FIRST = """    while num_elected < m:
+        if num_elected + len(ranking[i]) %s m:
+            elected.append(ranking[i])
+            num_elected += len(ranking[i])
+            i += 1
+            continue
+        if not tiebreak:
+            raise ValueError("Cannot elect correct number of candidates without breaking ties.")
+        tiebroken_ranking = tiebreak_set(ranking[i], profile, tiebreak)
+        elected += tiebroken_ranking[: (m - num_elected%s)]
+        remaining = list(tiebroken_ranking[(m - num_elected) :])
+        if i < len(ranking):
+            remaining += list(ranking[(i + 1) :])
+        return (tuple(elected), tuple(remaining), (ranking[i], tiebroken_ranking))
+
+"""
+FAULTS += [
+    ("test-first selector, one seat too many from the resolution", [(UT, _SEL_REGION, _SEL_TEST_FIRST % ("<=", " + 1"))], "C10.R5"),
+]
+BENIGN += [
+    ("test-first selector", [(UT, _SEL_REGION, _SEL_TEST_FIRST % ("<=", ""))]),
+]
